@@ -85,7 +85,7 @@ def canon_gs(gs, names):
     """the part of a compiled GraphState the properties speak about"""
     d = dict(step=int(gs.step), eps=int(gs.eps), nodes={})
     for n in names:
-        ent = dict(seq=int(gs.seq[n]), ts=tk(gs.ts[n])[0], state=int(gs.state[n].a[0]), buffer=to_int(gs.buffer[n].a),
+        ent = dict(seq=int(gs.seq[n]), ts=tk(gs.ts[n])[0], state=int(gs.state[n].a[0]), buffer=to_int(gs.buffer[n].a) if n in gs.buffer else None,
                    rng=[int(x) for x in aw.rngwords(gs.rng[n])[0][:2]], inputs={})
         for m, i in gs.inputs[n].items():
             ent["inputs"][m] = [[int(i.seq[j]), tk(i.ts_sent[j])[0], tk(i.ts_recv[j])[0], int(i.data.a[j][0])] for j in range(i.seq.shape[0])]
@@ -95,8 +95,20 @@ def canon_gs(gs, names):
 
 def make_graphs(job, N):
     cfg = job["cfg"]
+    if job.get("source") == "explicit":
+        # a hand-written computation graph (ticks), one episode per entry of job["graph"]
+        eps = job["graph"] if isinstance(job["graph"], list) else [job["graph"]]
+        gs_ = []
+        for g in eps:
+            verts = {n: base.Vertex(seq=onp.array([v[0] for v in vs], onp.int32), ts_start=onp.array([v[1] * T for v in vs], onp.float32),
+                                    ts_end=onp.array([v[2] * T for v in vs], onp.float32)) for n, vs in g["verts"].items()}
+            edges = {tuple(k.split(">")): base.Edge(seq_out=onp.array([e[0] for e in es], onp.int32), seq_in=onp.array([e[1] for e in es], onp.int32),
+                                                     ts_recv=onp.array([e[2] * T for e in es], onp.float32)) for k, es in g["edges"].items()}
+            gs_.append(base.Graph(vertices=verts, edges=edges))
+        return base.Graph.stack(gs_), None
     if job.get("source", "generate") == "generate":
         cg = generate_graphs(N, job["tmax"] * T, rng=jax.random.PRNGKey(job.get("seed", 0)), num_episodes=job.get("episodes", 2))
+        if job.get("reshape"): cg = reshape_graph(cg, cfg, job["reshape"], job.get("seed", 0))
         return cg, None
     # recorded by the threaded runtime
     g = ra.AsyncGraph(N, N[cfg["sup"]], clock=const.Clock.SIMULATED, real_time_factor=const.RealTimeFactor.FAST_AS_POSSIBLE)
@@ -115,6 +127,38 @@ def make_graphs(job, N):
         eps.append(r); canon.append(aw.canon_record(cfg, r, dict(rng=True, inputs=True, state=True, output=True)))
     exp = base.ExperimentRecord(episodes=eps)
     return exp.to_graph(), dict(records=canon, gs0=gs0, inits=inits)
+
+
+def reshape_graph(cg, cfg, spec, seed):
+    """hand-edited computation graphs (any acyclic graph is a legitimate input of rex.graph.Graph): messages that are never
+    consumed (seq_in = -1) and a sink node reduced to one long-running step that starts early and ends late"""
+    import random as _r
+    rnd = _r.Random(seed)
+    verts = {k: jax.tree_util.tree_map(lambda x: onp.array(x), v) for k, v in cg.vertices.items()}
+    edges = {k: jax.tree_util.tree_map(lambda x: onp.array(x), v) for k, v in cg.edges.items()}
+    long_sink = spec.get("long_sink")
+    if long_sink and long_sink in verts:
+        v = verts[long_sink]
+        for e in range(v.seq.shape[0]):
+            valid = v.seq[e] >= 0
+            if valid.sum() < 2: continue
+            last_end = v.ts_end[e][valid].max()
+            v.ts_end[e, 0] = last_end            # step 0 runs until the node's last recorded end
+            v.seq[e, 1:] = -1; v.ts_start[e, 1:] = -1; v.ts_end[e, 1:] = -1
+        for (a, b), ed in edges.items():
+            if b == long_sink: ed.seq_in[ed.seq_in > 0] = -1         # only messages consumed by step 0 remain
+            if a == long_sink:
+                ed.seq_in[ed.seq_out > 0] = -1; ed.ts_recv[ed.seq_out > 0] = -1; ed.seq_out[ed.seq_out > 0] = -1
+    pdrop = spec.get("drop_tail", 0)
+    if pdrop:
+        # the last messages of a connection are never consumed (unconsumed messages form a suffix, as in every graph rex itself produces)
+        for (a, b), ed in edges.items():
+            for e in range(ed.seq_in.shape[0]):
+                if rnd.random() < pdrop:
+                    nv = int((ed.seq_in[e] >= 0).sum())
+                    if nv > 1: ed.seq_in[e, rnd.randint(1, nv - 1):] = -1
+    return base.Graph(vertices={k: base.Vertex(seq=jnp.array(v.seq), ts_start=jnp.array(v.ts_start), ts_end=jnp.array(v.ts_end)) for k, v in verts.items()},
+                      edges={k: base.Edge(seq_out=jnp.array(e.seq_out), seq_in=jnp.array(e.seq_in), ts_recv=jnp.array(e.ts_recv)) for k, e in edges.items()})
 
 
 def run_job(job):
@@ -157,7 +201,7 @@ def run_job(job):
     pad = int(job.get("extra_padding", 0))
     # actual ring sizes used by the runner = buffer leading dimension
     gs_probe = G.init(jax.random.PRNGKey(job.get("seed", 0)))
-    ring = {nm: int(gs_probe.buffer[nm].a.shape[0]) for nm in names}
+    ring = {nm: (int(gs_probe.buffer[nm].a.shape[0]) if nm in gs_probe.buffer else 1) for nm in names}   # a node kind without a slot has no buffer
     res["ring"] = ring
     p0 = int(job.get("starting_step", 0))
     nrun = int(job.get("nrun", G.max_steps - p0))
@@ -232,6 +276,15 @@ def api_paths(job, G, names, N, cfg):
                 nss, o = N[sup].step(ss)
                 gs, ss = G.step(gs, nss, o)
         d["override"] = canon_gs(gs, names)
+        # the same, but the user's step state carries a stale sequence number (e.g. a stateless agent re-using fields of the
+        # reset step state): the schedule, not the user's seq field, names the buffer slot the output is written to
+        gs, ss = G.reset(gs0)
+        for i in range(n):
+            if int(gs.step) == 0: gs, ss = G.step(gs)
+            else:
+                nss, o = N[sup].step(ss)
+                gs, ss = G.step(gs, nss.replace(seq=jnp.zeros_like(nss.seq)), o)
+        d["override_stale_seq"] = canon_gs(gs, names)
         if n > 0:
             d["rollout_carry"] = canon_gs(jax.jit(G.rollout, static_argnames=("max_steps", "carry_only"))(gs0, max_steps=n, carry_only=True), names)
             full = jax.jit(G.rollout, static_argnames=("max_steps", "carry_only"))(gs0, max_steps=n, carry_only=False)
